@@ -38,6 +38,7 @@ def seed_base():
 class StageOutcome:
     def __init__(self, name):
         self.name = name
+        self.driver = name
         self.stats = []          # list of dicts (stats json of each process)
         self.failure = None      # (case_path, why, driver, extra_args)
         self.notes = []
@@ -108,6 +109,7 @@ def run_parallel(jobs, max_par=16):
 def stage_pbt(pid, stage, tier):
     """rapidcheck shards, or a deterministic enumeration (mode 'enum')."""
     out = StageOutcome(stage["name"])
+    out.driver = stage["driver"]
     cfg = stage[tier]
     if cfg is None:
         return out
@@ -311,7 +313,7 @@ def write_evidence(pid, tier, outcomes, wall, violations, extra_notes):
             ev += int(st.get("evaluations", 0))
             hs = st.get("distinct_hashes")
             if hs is not None and len(hs) == int(st.get("distinct_nontrivial", 0)):
-                hashes.update("%s:%s" % (o.name.split("#")[0], h) for h in hs)
+                hashes.update("%s:%s" % (o.driver, h) for h in hs)
             else:
                 anon_distinct += int(st.get("distinct_nontrivial", 0))
             for k, v in st.get("classes", {}).items():
